@@ -315,9 +315,15 @@ def report(ctx, events, rejects, nontrivial=None, key=None, rule="", exhaustive=
             for idx in sorted(rejects):
                 f.write(json.dumps(dict(reasons=rejects[idx], ev=events[idx])) + "\n")
     repdir = os.path.join(VERIF, "evidence", "replays")
+    incomplete = []
     for idx in sorted(rejects):
         ev = events[idx]
         for reason in rejects[idx]:
+            if reason.startswith("incomplete-"):
+                # the observation could not be completed (e.g. a gated schedule that the code under test does not follow): nothing is
+                # concluded from it; if nothing else is found either, the run as a whole is inconclusive (exit 2), never a pass
+                incomplete.append((idx, reason))
+                continue
             if reason.startswith("infra-"):
                 raise Infra("harness/specification disagreement (%s) on event %d: %s" % (reason, idx, json.dumps(trim(ev))[:800]))
             hit = None
@@ -329,6 +335,9 @@ def report(ctx, events, rejects, nontrivial=None, key=None, rule="", exhaustive=
                 known_hits.setdefault(hit["id"], [hit, 0])[1] += 1
             else:
                 violations.append((idx, reason))
+    if incomplete and not violations:
+        idx, reason = incomplete[0]
+        raise Infra("%d observation(s) could not be completed (%s), e.g. event %d: %s" % (len(incomplete), reason, idx, json.dumps(trim(events[idx]))[:600]))
     for kid, (entry, cnt) in sorted(known_hits.items()):
         print("KNOWN-FINDING: property=%s %s [%s, %d event(s)]" % (ctx.id, entry["what"], kid, cnt))
     shown = 0
